@@ -421,24 +421,24 @@ func c03(x *Ctx) {
 				},
 				Bool: func(v ssa.Value) eng.Tri { return eng.EvalRel(v, sc.rel) },
 			}
-			r := eng.Explore(eng.Query{Fn: se, Assume: as, Classify: func(in ssa.Instruction, _ eng.Facts) eng.Event {
-				if _, ok := eng.IsCall(in, nMakeDecision); ok {
+			reasons := map[string]bool{}
+			var pos ssa.Instruction
+			// the reason is read per explored state, with the φ-edges chosen on that path (the reason may be
+			// selected first and handed to a single makeDecision call)
+			r := eng.Explore(eng.Query{Fn: se, Assume: as, TrackPhi: func(*ssa.Phi) bool { return true }, Classify: func(in ssa.Instruction, F eng.Facts) eng.Event {
+				if cl, ok := eng.IsCall(in, nMakeDecision); ok {
+					a := eng.CallArgs(cl)
+					s, ok := eng.ConstString(F.Resolve(a[len(a)-1]))
+					if !ok {
+						s = "<non-constant>"
+					}
+					reasons[s] = true
+					pos = in
 					return eng.EvSink
 				}
 				return eng.EvNone
 			}})
 			c.Examined += r.States
-			reasons := map[string]bool{}
-			var pos ssa.Instruction
-			for _, h := range r.Hits {
-				a := eng.CallArgs(h.Instr.(ssa.CallInstruction))
-				s, ok := eng.ConstString(a[len(a)-1])
-				if !ok {
-					s = "<non-constant>"
-				}
-				reasons[s] = true
-				pos = h.Instr
-			}
 			ok := len(reasons) == 1 && reasons[sc.expected]
 			got := ""
 			for k := range reasons {
